@@ -61,6 +61,8 @@ def run(ctx):
         inputs.append(frontend.type_mutate(rng, src))
     inputs += frontend.test_snippets()
     inputs += frontend.empty_value_programs()
+    named = frontend.mentioned_name_programs()
+    inputs += named if not ctx.quick else rng.sample(named, min(len(named), 900))
     # every placement of the flavour-sensitive constructs (the C06 enumeration, sampled): accepted or diagnosed, never a crash
     from props import C06
     import itertools as _it
